@@ -2957,6 +2957,7 @@ impl KnowledgeGraph {
     /// Returns error if schema already exists or is invalid.
     /// Saves the catalog to disk on success.
     pub fn register_schema(&mut self, schema: RelationSchema) -> Result<(), String> {
+        self.check_existing_data_conforms(&schema)?;
         self.schema_catalog
             .register(schema)
             .map_err(|e| format!("{e}"))?;
@@ -2964,10 +2965,32 @@ impl KnowledgeGraph {
         Ok(())
     }
 
+    /// Reject a schema that the relation's stored tuples do not conform to.
+    ///
+    /// A declared schema is a promise about every stored tuple of the relation, so a
+    /// declaration (or re-declaration) over existing data is only accepted when that data
+    /// matches it; otherwise the schema is rejected and the data is left alone.
+    fn check_existing_data_conforms(&self, schema: &RelationSchema) -> Result<(), String> {
+        if let Some(existing) = self.engine.input_tuples.get(&schema.name) {
+            if !existing.is_empty() {
+                ValidationEngine::new()
+                    .validate_existing_data(schema, existing)
+                    .map_err(|e| {
+                        format!(
+                            "Existing data of '{}' violates the schema: {e}",
+                            schema.name
+                        )
+                    })?;
+            }
+        }
+        Ok(())
+    }
+
     /// Register or update a persistent schema for a relation
     ///
     /// Overwrites any existing schema. Saves to disk on success.
     pub fn register_or_update_schema(&mut self, schema: RelationSchema) -> Result<(), String> {
+        self.check_existing_data_conforms(&schema)?;
         self.schema_catalog
             .register_or_update(schema)
             .map_err(|e| format!("{e}"))?;
@@ -2979,6 +3002,7 @@ impl KnowledgeGraph {
     ///
     /// Session schemas are cleared when the knowledge graph is reloaded.
     pub fn register_session_schema(&mut self, schema: RelationSchema) -> Result<(), String> {
+        self.check_existing_data_conforms(&schema)?;
         self.schema_catalog
             .register_session(schema)
             .map_err(|e| format!("{e}"))
@@ -2989,6 +3013,7 @@ impl KnowledgeGraph {
         &mut self,
         schema: RelationSchema,
     ) -> Result<(), String> {
+        self.check_existing_data_conforms(&schema)?;
         self.schema_catalog
             .register_or_update_session(schema)
             .map_err(|e| format!("{e}"))
